@@ -519,6 +519,9 @@ def _payload_random(plot, l, lo, hi):
     shp = tuple(hi[d] - lo[d] + 1 for d in range(plot.ndims)) + (plot.nf,)
     r = _box_rng(plot, l, lo)
     scale = 10.0 ** r.integers(-3, 4, size=plot.nf)
+    if plot.payload.get("wide"):
+        # fields many decades apart in one box (an enthalpy next to a trace species)
+        scale = 10.0 ** r.choice([-12, -3, 0, 4, 9], size=plot.nf)
     return r.uniform(-1.0, 1.0, size=shp) * scale
 
 
